@@ -88,11 +88,17 @@ impl BDecoder {
         first_num: &u8,
     ) -> Result<(Vec<u8>, Vec<u8>), Error> {
         let mut len_bytes = vec![*first_num];
-        let mut rest_len_bytes: Vec<_> = it
-            .take_while(|(_, &b)| b != b':')
-            .map(|(_, &b)| b)
-            .collect();
-        len_bytes.append(&mut rest_len_bytes);
+        let mut delimiter_found = false;
+        while let Some((_, &b)) = it.next() {
+            if b == b':' {
+                delimiter_found = true;
+                break;
+            }
+            len_bytes.push(b);
+        }
+        if !delimiter_found {
+            return Err(Error::DecodeNotEnoughChars("parse_byte_str", pos));
+        }
         let mut str_raw = len_bytes.clone();
         str_raw.push(b':');
 
